@@ -275,6 +275,8 @@ type histIO struct {
 	out    func() []byte // every byte the client-side transport has received
 	closes func() int
 	pk     *string // set to "site: message" when a call into the library panicked
+	// view: what the Conn's accessors report right now
+	view func() (accepted bool, name string, alpn []string)
 	// feedSplit (sequential histories only): the record arrives as rec[:k], a
 	// read-deadline timeout, then rec[k:]. It returns what the reads before the
 	// timeout delivered, what the reads after it delivered, and the error (if
@@ -298,6 +300,7 @@ func seqIO(b *built) *histIO {
 		}
 	}
 	return &histIO{pk: pk,
+		view: func() (bool, string, []string) { return conn.ECHAccepted(), conn.ServerName(), conn.ALPNProtos() },
 		start: func() (first []byte, accepted bool, err error) {
 			guard(func() { conn, err = ech.NewConn(context.Background(), sc, keyOptions(b.keys)...) })
 			if *pk != "" || err != nil {
@@ -561,7 +564,19 @@ func executeHistory(t *testing.T, prop string, seed uint64, p *HistoryPlan) *cor
 
 func runHistory(prop string, seed uint64, p *HistoryPlan, b *built, io_ *histIO, res *core.Result) {
 	var log []string
-	fail := func(class, site, f string, a ...any) { res.Fail(prop, class, site, f, a...) }
+	fail := func(class, site, f string, a ...any) {
+		if prop == "C03" && class != "accessors" && class != "panic" {
+			// C03 looks at these histories for what the accessors report; the
+			// retry rules themselves are C06's (and C04's) to judge
+			res.Probe("history_ended_early_other_property")
+			return
+		}
+		if prop != "C03" && class == "accessors" {
+			res.Probe("accessor_mismatch_left_to_C03")
+			return
+		}
+		res.Fail(prop, class, site, f, a...)
+	}
 	first, accepted, err := io_.start()
 	if *io_.pk != "" {
 		fail("panic", *io_.pk, "NewConn / first Read")
@@ -588,6 +603,24 @@ func runHistory(prop string, seed uint64, p *HistoryPlan, b *built, io_ *histIO,
 	hc := &histClient{p: &p.Base, b: b, r: res, seed: seed, sendSeq: 1}
 	outLen := 0
 	var sigParts []string
+	// what the Conn says about the hello it accepted does not change with what
+	// comes later (a retried hello keeps name and protocols; a refused one is
+	// not what the backend was given)
+	checkView := func(when string) {
+		if io_.view == nil || *io_.pk != "" {
+			return
+		}
+		var acc bool
+		var name string
+		var alpn []string
+		if pk, m, s := core.Guard(func() { acc, name, alpn = io_.view() }); pk {
+			fail("panic", s+": "+normMsg(m), "accessors %s", when)
+			return
+		}
+		if !acc || name != b.inner.SNI() || !slices.Equal(alpn, b.inner.ALPN()) {
+			fail("accessors", "ECHAccepted/ServerName/ALPNProtos no longer describe the accepted hello", "%s: accepted=%v name=%q alpn=%q, the hello given to the backend has name=%q alpn=%q", when, acc, name, alpn, b.inner.SNI(), b.inner.ALPN())
+		}
+	}
 	var pendingW []byte
 	slowFirst := false
 	// spill: octets of a later backend record already handed to Write
@@ -813,6 +846,7 @@ func runHistory(prop string, seed uint64, p *HistoryPlan, b *built, io_ *histIO,
 		if expectAbort != nil {
 			checkAbort(res, prop, "retried hello ("+st.Kind+")", rerr, io_.out()[outLen:], io_.closes(), got, expectAbort)
 			log = append(log, fmt.Sprintf("c %s abort %v", st.Kind, rerr))
+			checkView("after the refused retried hello")
 			break
 		}
 		if rerr != nil {
@@ -844,6 +878,7 @@ func runHistory(prop string, seed uint64, p *HistoryPlan, b *built, io_ *histIO,
 			break
 		}
 		log = append(log, fmt.Sprintf("c %s ok processed=%v", st.Kind, processed))
+		checkView(fmt.Sprintf("after client record %d (%s)", i, st.Kind))
 	}
 	res.NonTrivial = res.Harness == ""
 	res.Sig = core.SigOf(append([]string{"history", fmt.Sprint(p.Concurrent)}, sigParts...)...)
